@@ -5,6 +5,7 @@
 extern "C" {
 #endif
 void tbbrt_config(int workers, int concurrency);
+void tbbrt_task_points(int always);  // 1: spawn/wait/task-end are scheduling points even with a single modelled TBB thread
 void tbbrt_shutdown(void);
 void tbbrt_reset(void);
 void tbbrt_stats(uint64_t* tasks, uint64_t* spawns, uint64_t* steals);
